@@ -396,10 +396,8 @@ class InteractingNetworks(Network):
         :rtype: 2D array [node index, node index]
         :return: the subnetwork's adjacency matrix.
         """
-        #  Create igraph Graph object describing the subgraph
-        subgraph = self.graph.subgraph(node_list)
-        #  Get adjacency matrix
-        return np.array(subgraph.get_adjacency(type=2).data).astype(np.int8)
+        #  Get adjacency matrix in the order of the given node list
+        return self.adjacency[node_list, :][:, node_list].astype(np.int8)
 
     def cross_adjacency(self, node_list1, node_list2):
         """
@@ -481,19 +479,9 @@ class InteractingNetworks(Network):
         :rtype: square numpy array [node_index, node_index]
         :return: link weights submatrix
         """
-        weights = np.zeros((len(node_list), len(node_list)))
-        subgraph = self.graph.subgraph(node_list)
-
-        if self.directed:
-            for e in subgraph.es:
-                weights[e.tuple] = e[attribute_name]
-        #  Symmetrize if subgraph is undirected
-        else:
-            for e in subgraph.es:
-                weights[e.tuple] = e[attribute_name]
-                weights[e.tuple[1], e.tuple[0]] = e[attribute_name]
-
-        return weights
+        #  Get link weights submatrix in the order of the given node list
+        weights = self.link_attribute(attribute_name)
+        return weights[node_list, :][:, node_list]
 
     def cross_link_attribute(self, attribute_name, node_list1, node_list2):
         """
